@@ -41,6 +41,7 @@ const (
 type Config struct {
 	Strategy      int
 	MaxSteps      int // livelock horizon (visible operations)
+	FairAfter     int // after this many visible operations the base strategy becomes round-robin FIFO (fair)
 	MaxIdleTicks  int // idle environment events before STARVED
 	FuelLimit     int // loop iterations between two visible operations
 	Trace         bool
@@ -49,7 +50,10 @@ type Config struct {
 
 func (c *Config) defaults() {
 	if c.MaxSteps == 0 {
-		c.MaxSteps = 20000
+		c.MaxSteps = 9000
+	}
+	if c.FairAfter == 0 {
+		c.FairAfter = 3000
 	}
 	if c.MaxIdleTicks == 0 {
 		c.MaxIdleTicks = 40
@@ -496,6 +500,18 @@ type alt struct {
 
 func (s *Sched) order(self *Thread) []*Thread {
 	var rs []*Thread
+	if s.steps > s.cfg.FairAfter {
+		// fair tail: strict round-robin by time of becoming ready, the running
+		// thread gets no preference. An execution that is still going after
+		// MaxSteps under this regime is really unbounded activity.
+		for _, t := range s.threads {
+			if t.state == tsReady {
+				rs = append(rs, t)
+			}
+		}
+		sort.SliceStable(rs, func(i, j int) bool { return rs[i].readySince < rs[j].readySince })
+		return rs
+	}
 	for _, t := range s.threads {
 		if t.state == tsReady && t != self {
 			rs = append(rs, t)
